@@ -1,7 +1,9 @@
 /-
 Specification of structural equality in the presence of user-declared Equal methods:
 "where a named component declares its own Equal method the answer at that component is that method's".
-`structEqM` is the component semantics; `structEqTopM` is the answer of the function generated for a
+`structEqM` is the component semantics (map KEYS are matched with the method-free equality `structEq`:
+the key set of a Go map is determined by `==`, never by a user method; map VALUES are components);
+`structEqTopM` is the answer of the function generated for a
 type: the function for `*T` (T a named struct) is what T's own method is meant to delegate to, so it
 compares T's fields even when T declares a method.
 -/
@@ -53,7 +55,7 @@ termination_by (sizeOf xs, 2)
 def valueAtM (env : Env) (K V : Ty) (k v : Val) (ys : Val) : Bool :=
   match ys with
   | .scons (.pair k' w) s =>
-      (structEqM env K k k' && structEqM env V v w) || valueAtM env K V k v s
+      (structEq env K k k' && structEqM env V v w) || valueAtM env K V k v s
   | _ => false
 termination_by (sizeOf k + sizeOf v + 1, sizeOf ys)
 end
